@@ -243,8 +243,8 @@ Proof. exact plain_leaf_correct. Qed.
 Print Assumptions C11_plain_leaf_correct.
 
 (* an adequate generic leaf returns the spec values of every stream of runs inside the decoder's region *)
-Theorem C11_generic_leaf_values : forall w selfmade a isz rs,
-  adequate w selfmade (DGeneric a isz) = true ->
+Theorem C11_generic_leaf_values : forall w selfmade one_run a isz rs,
+  adequate w selfmade one_run (DGeneric a isz) = true ->
   Forall (irun_ok w isz) rs -> rs <> [] ->
   run_idec (DGeneric a isz) w (hyb_enc w rs) (lenN (allvals rs)) = Some (map (tr isz) (allvals rs)).
 Proof. exact generic_leaf_values. Qed.
@@ -263,10 +263,10 @@ Proof. exact fast_leaf_correct. Qed.
 Print Assumptions C11_fast_leaf_correct.
 
 (* what adequacy of a choice means *)
-Theorem C11_adequate_facts : forall w selfmade d, adequate w selfmade d = true ->
+Theorem C11_adequate_facts : forall w selfmade one_run d, adequate w selfmade one_run d = true ->
   match d with
-  | DFast => selfmade = true /\ own_width w = true
-  | DGeneric a isz => a = isz /\ (isz = 1 \/ isz = 4) /\ 0 < w <= 8 * isz /\ (selfmade = true -> own_width w = false)
+  | DFast => selfmade = true /\ own_width w = true /\ one_run = true
+  | DGeneric a isz => a = isz /\ (isz = 1 \/ isz = 4) /\ 0 < w <= 8 * isz /\ takes_view w selfmade one_run = false
   | DZeros => w = 0
   | DNone => False
   end.
